@@ -144,3 +144,31 @@ for _m, _p, _chk in (('send_data', {'*data': 'Args0'}, ['ncalls("DataSender.send
                       '        and forall(range(0, old(len(self.reply_queue))), lambda j: same(self.reply_queue[j], old(seq(self.reply_queue))[j])))',
                       'implies(not ("PIPELINING" in self.extensions), ' + OWN_REPLY + ' and ' + ' and '.join(FLUSHED) + ')'],
              checks=_chk, raises=CL_RAISES, modifies=CL_MOD)
+
+# ---------------------------------------------------------------------------- greeting commands and STARTTLS (C10)
+# EHLO / HELO / LHLO are never pipelined: one reply object queued last, one command sent, flushed at once, and the
+# object holds the reply to this very command whatever was still owed before.
+extern('Extensions.parse_string', params={'self': 'Extensions', 'string': 'Opt[Str]'}, returns='Str', modifies=['self.state'],
+       notes='Extensions.parse_string: records the advertised extensions, returns the greeting line (extension parsing: C06 territory)')
+for _cls, _m in (('Client', 'ehlo'), ('Client', 'helo'), ('LmtpClient', 'lhlo')):
+    contract('%s.%s' % (_cls, _m), module=M, props=['C10'],
+             params={'self': _cls, _m + '_as': 'Union[Str, Bytes]'}, returns='Reply',
+             requires=['CLIENT_ok(self)', 'in_timeout_scope()', 'self.extensions != None'],
+             ensures=['result != None', 'fresh(result)', OWN_REPLY] + FLUSHED +
+                     # LMTP: a successful LHLO starts from an empty recipient list
+                     (['implies(result.code == "250", self.rcpttos != None and len(self.rcpttos) == 0)'] if _m == 'lhlo' else []),
+             checks=['ncalls("IO.send_command") == 1'],
+             raises=dict(CL_RAISES, UnicodeEncodeError=[]),
+             modifies=CL_MOD + ['self.extensions.state'] + (['self.rcpttos'] if _m == 'lhlo' else []))
+
+extern('Client.encrypt', params={'self': 'Client', 'context': 'Any'}, defaults={'context': 'None'}, yields=True,
+       raises={'OSError': [], 'ConnectionLost': [], 'Timeout': []},
+       notes='Client.encrypt: TLS handshake on the socket (IO.encrypt_socket_client, C08); no reply is read')
+contract('Client.starttls', module=M, props=['C10'],
+         params={'self': 'Client', 'context': 'Any'}, defaults={'context': 'None'}, returns='Reply',
+         requires=['CLIENT_ok(self)', 'in_timeout_scope()'],
+         # the reply object holds the reply to STARTTLS itself; the handshake starts only after every owed reply was read
+         ensures=['result != None', 'fresh(result)', OWN_REPLY] + FLUSHED,
+         checks=['ncalls("Client.custom_command") == 1',
+                 'iff(ncalls("Client.encrypt") == 1, result.code == "220")', 'ncalls("Client.encrypt") <= 1'],
+         raises=CL_RAISES, modifies=CL_MOD)
